@@ -273,7 +273,7 @@ def pylist_op(lst, op, args):
         lst.append(args[0])
     elif op == "insert":
         lst.insert(args[0], args[1])
-    elif op == "extend" or op == "iadd":
+    elif op in ("extend", "iadd", "extend_gen", "iadd_gen", "iadd_self"):
         lst.extend(args[0])
     elif op == "imul":
         lst *= args[0]
@@ -346,10 +346,20 @@ def apply_edit_live(ns, model, live, edit, via_update=False):
             lst.insert(args[0], conv(args[1]))
         elif op == "extend":
             lst.extend([conv(x) for x in args[0]])
+        elif op == "extend_gen":                       # any iterable is a valid argument of extend / +=
+            lst.extend(conv(x) for x in args[0])
         elif op == "iadd":
             tmp = getattr(live[o], a)
             tmp += [conv(x) for x in args[0]]
             setattr(live[o], a, tmp)      # what `obj.attr += [...]` does
+        elif op == "iadd_gen":
+            tmp = getattr(live[o], a)
+            tmp += (conv(x) for x in args[0])
+            setattr(live[o], a, tmp)
+        elif op == "iadd_self":                        # lst += lst doubles a Python list
+            tmp = getattr(live[o], a)
+            tmp += tmp
+            setattr(live[o], a, tmp)
         elif op == "imul":
             tmp = getattr(live[o], a)
             tmp *= args[0]
